@@ -47,6 +47,7 @@ CsExit == Ev("CsExit") /\ R.t \in incs /\ incs' = incs \ {R.t} /\ UNCHANGED <<re
 Interrupt == Ev("Interrupt") /\ intr' = intr \cup {R.t} /\ UNCHANGED <<readers, writer, pend, incs, shared>>
 \* threads found asleep in lock(): legitimate only while somebody holds the lock
 Settle == /\ Ev("Settle")
+          /\ \A i \in 1..Len(R.blocked) : pend[R.blocked[i]].op = "lock" /\ ~pend[R.blocked[i]].lin     \* asleep = not admitted
           /\ (Len(R.blocked) = 0 \/ readers # {} \/ writer # 0)
           /\ UNCHANGED <<readers, writer, pend, intr, incs, shared>>
 Quiesce == /\ Ev("Quiesce") /\ \A t \in T : pend[t].op = "none"
